@@ -345,7 +345,7 @@ class Report:
             with open(path, "w") as fh:
                 json.dump({"property": self.pid, "signature": sig, "detail": v["detail"], "occurrences": v["n"],
                            "replay": v["replay"]}, fh, indent=1, default=str)
-            lines.append("VIOLATION property=%s replay=%s  # %s :: %s" % (self.pid, path, sig, str(v["detail"])[:300]))
+            lines.append("VIOLATION property=%s replay=%s  # %s :: %s" % (self.pid, path, sig.replace("\n", " "), str(v["detail"])[:300].replace("\n", " | ")))
             nviol += 1
         cov = {
             "evaluations": int(self.evaluations),
